@@ -26,7 +26,7 @@ def tokenise_loose(text):
 
 class C14(Prop):
     id = 'C14'
-    rule_added = '40% of the parse cases call parse() again on the same object (same text, or the text replaced by one of the other validity). Enumerated: 96 refused-declaration sequences (a refused constant declaration leaves no trace). Mutation: a field reference appended to an identifier.'
+    rule_added = '15% of the accepted texts are followed, on the same object, by a text that uses the name the first one gave its assertion, or the name of a surplus column of a data set evaluated in between. 40% of the parse cases call parse() again on the same object (same text, or the text replaced by one of the other validity). Enumerated: 96 refused-declaration sequences (a refused constant declaration leaves no trace). Mutation: a field reference appended to an identifier.'
     rule = ('(A) fuzzing of parse(): generated valid texts (canonical and variant spellings, assertion heads, in-text '
             'declarations, comments) and their token-level mutants (delete/duplicate/swap/replace/insert a token of the '
             'language, unbalanced brackets, truncation at a random position), character-level mutants (illegal ASCII, '
@@ -155,7 +155,7 @@ class C14(Prop):
             if rng.random() < 0.2:
                 t = self.mutate(rng, t)
         return {'type': 'parse', 'text': t, 'declared': rng.choice([['x', 'y', 'z'], ['x'], []]), 'mutated': mutated,
-                'const': rng.random() < 0.3, 'again': rng.choice([0, 0, 0, 1, 2])}
+                'const': rng.random() < 0.3, 'again': rng.choice([0, 0, 0, 1, 2, 3, 4])}
 
     def gen_undeclared(self, rng):
         c = lang.GenCfg(vars=['x', 'y', 'z'], max_depth=rng.choice([1, 2, 3]), future=rng.random() < 0.5, max_bound=3)
@@ -269,6 +269,8 @@ class C14(Prop):
         k = case.get('again', 0)
         if not k:
             return
+        if k in (3, 4):
+            return self.again_names(v, m, text, accepted, k)
         err, old = io.StringIO(), sys.stderr
         sys.stderr = err
         try:
@@ -305,6 +307,42 @@ class C14(Prop):
             v.bad('reparse-differs', '%r was %s by the first parse(); %s on the same object %s' % (
                 text, 'accepted' if accepted else 'rejected with RTAMTException', label,
                 'returned normally' if got else 'raised RTAMTException'))
+
+    def again_names(self, v, m, text, accepted, k):
+        """After an accepted parse(), a second text on the same object uses (k=3) the name the first text gave its
+        assertion, or (k=4) the name of a surplus column of a data set that was evaluated in between: such an
+        identifier is a sub-specification name, an implicitly declared float signal, or refused with RTAMTException -
+        parse() never fails with another exception type."""
+        import re
+        if not accepted:
+            return
+        err, old = io.StringIO(), sys.stderr
+        sys.stderr = err
+        try:
+            if k == 3:
+                mm = re.match(r'\s*(?:/\*.*?\*/\s*|//[^\n]*\n\s*)*([A-Za-z_][A-Za-z_0-9]*)\s*=[^=]', text)
+                name = mm.group(1) if mm and mm.group(1) not in lang.RESERVED else 'out'
+                second = 'q2 = ((%s >= 2) and (x <= 3))' % name
+                label = 'parse() of %r after the object had parsed this text' % second
+            else:
+                try:
+                    m.spec.evaluate({'time': [0, 1], 'x': [1.0, 2.0], 'y': [0.5, 0.0], 'z': [3.0, 1.0], 'zz': [1.0, 2.0]})
+                except Exception:
+                    return
+                second = 'q3 = ((zz >= 1) or (x <= 3))'
+                label = 'parse() of %r after an evaluate() whose data set had the surplus column zz' % second
+            m.spec.spec = second
+            try:
+                m.parse()
+                v.info['reparse:%d:accepted' % k] = 1
+            except Exception as e:
+                if not drive.is_rtamt_exc(e):
+                    v.bad('reparse-raises:' + type(e).__name__, '%r: %s raised %s: %s' % (
+                        text, label, type(e).__name__, str(e)[:120]))
+                    return
+                v.info['reparse:%d:refused-cleanly' % k] = 1
+        finally:
+            sys.stderr = old
 
     def judge_undeclared(self, case):
         v = Verdict()
